@@ -79,6 +79,7 @@ def vocabulary(repo, res):
     vocab = lambda x: x.has(f"{NM} in global_dict", True) and (x.has(f"isinstance(global_dict[{NM}], (Basic, type))", True) or x.has(f"callable(global_dict[{NM}])", True))
     SYM = lambda name_expr: f"result.extend([(token.NAME, 'Symbol'), (token.OP, '('), (token.NAME, repr({name_expr})), (token.OP, ','), (token.NAME, 'positive'), (token.OP, '='), (token.NAME, 'True'), (token.OP, ')')])"
     ok = ok_other = ok_alias = True
+    explicit_test = False
     n_pass = n_sym = n_other = 0
     seen_alias = seen_plain = False
     for x in sums:
@@ -96,6 +97,12 @@ def vocabulary(repo, res):
             ok &= eff in ([a_], [p_])
             seen_alias |= eff == [a_]
             seen_plain |= eff == [p_]
+            # with an explicit membership test the plain spelling is used exactly when the name is not listed
+            listed = x.has(f"str({NM}) in inv_name_alternatives", True)
+            unlisted = x.has(f"str({NM}) in inv_name_alternatives", False)
+            if listed or unlisted:
+                explicit_test = True
+                ok_alias &= (eff == [a_]) if listed else (eff == [p_])
         else:
             ok = False
     res.check(ok and n_pass >= 1 and n_sym >= 1, "transformer:names", tf.where(lp), "every NAME token is either a vocabulary name (bound in global_dict to a sympy class / callable) or is replaced by Symbol('<name>', positive=True); nothing else is emitted for a NAME", found=[(sorted(x.facts), x.effects) for x in sums][:2], rid=r1)
@@ -103,6 +110,7 @@ def vocabulary(repo, res):
     # alias lookup first, the name itself only when the lookup fails (KeyError handler)
     tr = [n for n in ast.walk(tf.node) if isinstance(n, ast.Try)]
     handler_ok = len(tr) == 1 and len(tr[0].handlers) == 1 and norm(tr[0].handlers[0].type) == "KeyError" and any("inv_name_alternatives[" in norm(x_) for x_ in ast.walk(ast.Module(body=tr[0].body, type_ignores=[])) if isinstance(x_, ast.Subscript))
+    handler_ok = handler_ok or (explicit_test and ok_alias and not tr)
     res.check(seen_alias and seen_plain and handler_ok, "transformer:alias-map", tf.where(), "the symbol name is the canonical spelling from the alias map, else (KeyError) the name itself", found=(seen_alias, seen_plain, handler_ok), rid=r1)
     q = mod.imports.get("inv_name_alternatives")
     res.check(q == "unyt._unit_lookup_table.inv_name_alternatives", "transformer:alias-source", PAR, "aliases come from the generated inverse name table", found=q, rid=r1)
